@@ -610,6 +610,79 @@ func incrOne(tr *tracer.T, cfg *incrIn, pi int, path []map[string]interface{}, h
 	drifted := false
 	parserBusy := false // the parser was released and has not come back to its gate yet
 	lastRestart := ""
+	// quiesce: parse everything, dequeue everything, two ticks, let the target process all
+	quiesce := func(at int) {
+		// run to quiescence: parse everything, dequeue everything, a final tick, let the target process all
+		for guard := 0; guard < 400; guard++ {
+			progressed := false
+			fd.mu.Lock()
+			pending := len(fd.buf) > 0
+			fd.mu.Unlock()
+			_ = pending
+			if rig.ds.VerifSendBufLen() > 0 {
+				rig.release['s'] <- struct{}{}
+				if !waitCh(rig.arrive['s']) {
+					add(at, "hang", "sender stuck while draining")
+					dead = true
+					break
+				}
+				progressed = true
+			}
+			for cc.Sent() > released {
+				if !waitCh(tArrive) {
+					add(at, "hang", "flushed command did not arrive at the target while draining")
+					dead = true
+					break
+				}
+				tRelease <- struct{}{}
+				released++
+				waitCh(tDone)
+				progressed = true
+			}
+			if dead {
+				break
+			}
+			if !progressed {
+				// anything left unparsed?  release the parser; it blocks on the empty feed when done
+				if !parserBusy {
+					select {
+					case rig.release['p'] <- struct{}{}:
+					default:
+					}
+				}
+				parserBusy = false
+				select {
+				case <-rig.arrive['p']:
+					progressed = true
+				case <-time.After(3 * time.Millisecond):
+				}
+			}
+			if !progressed {
+				break
+			}
+		}
+		if !dead {
+			// at most two ticks flush whatever is cached
+			for k := 0; k < 2; k++ {
+				rig.tick <- time.Now()
+				rig.release['s'] <- struct{}{}
+				if !waitCh(rig.arrive['s']) {
+					add(at, "hang", "sender stuck on the final tick")
+					dead = true
+					break
+				}
+				for cc.Sent() > released {
+					if !waitCh(tArrive) {
+						dead = true
+						break
+					}
+					tRelease <- struct{}{}
+					released++
+					waitCh(tDone)
+				}
+			}
+		}
+	}
 	for si, st := range path {
 		if dead || drifted {
 			break
@@ -710,6 +783,7 @@ func incrOne(tr *tracer.T, cfg *incrIn, pi int, path []map[string]interface{}, h
 				dead = true
 				break
 			}
+			anywhere := wantOff == -2 // a hand-picked path: resume from whatever the real loader says
 			if off < 0 || runid == "?" {
 				if wantOff >= 0 {
 					add(si, "drift", fmt.Sprintf("model resumes from item %d, the loader found no usable checkpoint (%q,%d,%d)", wantOff, runid, off, db))
@@ -719,7 +793,7 @@ func incrOne(tr *tracer.T, cfg *incrIn, pi int, path []map[string]interface{}, h
 				break
 			}
 			lastRestart = fmt.Sprintf("restart at (%q,%d,%d), model expected item %d", runid, off, db, wantOff)
-			if wantOff < 1 || wantOff > len(ends) || int(off) != ends[wantOff-1] {
+			if !anywhere && (wantOff < 1 || wantOff > len(ends) || int(off) != ends[wantOff-1]) {
 				// the real target holds another checkpoint than the model: stop following the path, run the
 				// real code to quiescence from where the real loader says; the contract judges the outcome
 				add(si, "drift", "after the cut the real loader resumes elsewhere than the model: "+lastRestart)
@@ -734,6 +808,10 @@ func incrOne(tr *tracer.T, cfg *incrIn, pi int, path []map[string]interface{}, h
 			if !start(off, db, runid) {
 				dead = true
 			}
+		case "Quiesce":
+			// (hand-picked paths) everything emitted so far is parsed, sent and executed before the next step
+			quiesce(si)
+			drifted = false
 		case "Init":
 		}
 		if (!dead && !drifted) || a == "Crash" {
@@ -741,81 +819,9 @@ func incrOne(tr *tracer.T, cfg *incrIn, pi int, path []map[string]interface{}, h
 		}
 	}
 	if !dead {
-		if drifted {
-			// hand everything already emitted to the (possibly restarted) parser
-		}
-		// run to quiescence: parse everything, dequeue everything, a final tick, let the target process all
-		for guard := 0; guard < 400; guard++ {
-			progressed := false
-			fd.mu.Lock()
-			pending := len(fd.buf) > 0
-			fd.mu.Unlock()
-			_ = pending
-			if rig.ds.VerifSendBufLen() > 0 {
-				rig.release['s'] <- struct{}{}
-				if !waitCh(rig.arrive['s']) {
-					add(len(path), "hang", "sender stuck while draining")
-					dead = true
-					break
-				}
-				progressed = true
-			}
-			for cc.Sent() > released {
-				if !waitCh(tArrive) {
-					add(len(path), "hang", "flushed command did not arrive at the target while draining")
-					dead = true
-					break
-				}
-				tRelease <- struct{}{}
-				released++
-				waitCh(tDone)
-				progressed = true
-			}
-			if dead {
-				break
-			}
-			if !progressed {
-				// anything left unparsed?  release the parser; it blocks on the empty feed when done
-				if !parserBusy {
-					select {
-					case rig.release['p'] <- struct{}{}:
-					default:
-					}
-				}
-				parserBusy = false
-				select {
-				case <-rig.arrive['p']:
-					progressed = true
-				case <-time.After(3 * time.Millisecond):
-				}
-			}
-			if !progressed {
-				break
-			}
-		}
+		quiesce(len(path))
 		if !dead {
-			// at most two ticks flush whatever is cached
-			for k := 0; k < 2; k++ {
-				rig.tick <- time.Now()
-				rig.release['s'] <- struct{}{}
-				if !waitCh(rig.arrive['s']) {
-					add(len(path), "hang", "sender stuck on the final tick")
-					dead = true
-					break
-				}
-				for cc.Sent() > released {
-					if !waitCh(tArrive) {
-						dead = true
-						break
-					}
-					tRelease <- struct{}{}
-					released++
-					waitCh(tDone)
-				}
-			}
-			if !dead {
-				snap(len(path), "Quiesce", true)
-			}
+			snap(len(path), "Quiesce", true)
 		}
 	}
 	return
